@@ -77,6 +77,7 @@ def commitTree (basis eff : Tree) (S : List Id) : Tree := S.foldl (recordOne eff
 inductive CErr where
   | pathsNotVersioned (ps : List Path)
   | inconsistentDelta
+  | rootMissing
   | fuel
   deriving DecidableEq, Repr
 
@@ -86,21 +87,60 @@ structure Result where
   wt : WT            -- working tree afterwards (`unversion(deleted_paths)`)
   deriving Repr
 
+/-- `create_by_apply_delta` also checks every delta item's `new_path` against
+the path the entry really has in the resulting inventory: a recorded entry must
+sit at its working-tree path -/
+def deltaConsistent (t : Tree) (w : WT) (S : List Id) : Bool :=
+  S.all fun i => (get (effective w) i).isNone || pathOf t i == pathOf w.inv i
+
+/-- what `create_by_apply_delta` validates.  `strict`: the result is well-formed.
+`lax` (the code as found, see `excluded_child_corrupt_witness`): "the parent is
+a directory" is only checked for the entries of the delta, so an *unrecorded*
+child can be left below an entry the delta turned into a file or symlink. -/
+inductive Validation where
+  | strict | lax
+  deriving DecidableEq, Repr
+
+/-- `wf` with the parent-kind check restricted to the ids of `S` -/
+def wfLax (t : Tree) (S : List Id) : Bool :=
+  (rootsOf t).length == 1
+  && decide (ids t).Nodup
+  && t.all (fun x => match x.2.parent with
+      | none => x.2.node.kind == .dir
+      | some p => match get t p with
+        | some pe => pe.node.kind == .dir || !S.contains x.1
+        | none => false)
+  && t.all (fun x => t.all fun y => x.1 == y.1 || !(x.2.parent == y.2.parent && x.2.name == y.2.name))
+  && t.all (fun x => (pathOf t x.1).isSome)
+
+def valid (v : Validation) (t : Tree) (S : List Id) : Bool :=
+  match v with
+  | .strict => wf t
+  | .lax => wfLax t S
+
 /-- the part of the pipeline after the change stream is known -/
-def commitFrom (basis : Tree) (w : WT) (S : List Id) : Except CErr Result :=
+def commitFrom (v : Validation) (basis : Tree) (w : WT) (S : List Id) : Except CErr Result :=
   let t := commitTree basis (effective w) S
-  if wf t then
+  if valid v t S && deltaConsistent t w S then
     .ok { ids := S, tree := t,
           wt := { inv := w.inv.filter fun x => !(w.missing.contains x.1 && S.contains x.1),
                   missing := w.missing.filter fun i => !S.contains i } }
+  else if (rootsOf t).isEmpty then .error .rootMissing      -- first commit that does not record the root
   else .error .inconsistentDelta
 
+/-- `osutils.minimum_path_selection`: paths at or below another path of the list
+are redundant (`Commit.commit` normalises `specific_files` with it *before* the
+comparison checks that every path is versioned) -/
+def minSel (f : List Path) : List Path :=
+  f.filter fun p => !f.any fun q => q != p && q.isPrefixOf p
+
 /-- `Commit.commit(specific_files=sel, exclude=excl)` on an inventory tree -/
-def commitModel (basis : Tree) (w : WT) (sel : Option (List Path)) (excl : List Path) : Except CErr Result :=
-  match reportedChanges basis w sel with
+def commitModel (v : Validation) (basis : Tree) (w : WT) (sel : Option (List Path)) (excl : List Path) :
+    Except CErr Result :=
+  match reportedChanges basis w (sel.map minSel) with
   | .error (.pathsNotVersioned ps) => .error (.pathsNotVersioned ps)
   | .error .fuel => .error .fuel
-  | .ok cs => commitFrom basis w (commitIds excl cs)
+  | .ok cs => commitFrom v basis w (commitIds excl cs)
 
 /-! ### git trees (path space) -/
 
